@@ -157,7 +157,10 @@ func (S *LevelDbStore) IsEmpty() bool {
 	hash := hashing.Sum64(MetaInfoKey)
 	has, err := S.Db.Has(hash, nil)
 	if err != nil {
-		return true
+		//a database which can not be read is not known to be empty. reporting it as empty would let
+		//the repository treat the crl as never loaded and accept certificates the stored crl lists.
+		//as a non empty store its lookups report the read error until the next update replaces it
+		return false
 	}
 	if has == false {
 		return true
